@@ -317,6 +317,9 @@ pub fn emit_case_pre(
     if let Some((pq, pc, pa)) = &pre {
         out.inp(&format!("pre {} {} {}", pq, if *pc { 1 } else { 0 }, join(pa.iter(), " ")));
     }
+    if EXTERNAL_BACKEND.with(|b| b.borrow().is_some()) {
+        out.inp("backend external-partial");
+    }
     let sh = new_shared(fault);
     let fac = recording_factory(&sh);
     let r = guarded(|| match &pre {
@@ -346,12 +349,14 @@ pub struct Cfg {
     pub faults: bool,
     /// never precede a case by another query on the same object (C18 counts the calls of ONE query)
     pub nopre: bool,
+    /// path of the verified reference solver: one small case in sixteen runs on it (partial models) instead of CaDiCaL
+    pub external: Option<String>,
     pub shard: (usize, usize),
 }
 
 impl Cfg {
     pub fn from_extra(extra: &[String], max_args: usize) -> Cfg {
-        let mut c = Cfg { max_args, queries: vec!["SE".into(), "DC".into(), "DS".into()], certs: vec![false, true], exhaustive_n: None, large: false, faults: false, nopre: false, shard: (0, 1) };
+        let mut c = Cfg { max_args, queries: vec!["SE".into(), "DC".into(), "DS".into()], certs: vec![false, true], exhaustive_n: None, large: false, faults: false, nopre: false, external: None, shard: (0, 1) };
         let mut i = 0;
         while i < extra.len() {
             match extra[i].as_str() {
@@ -361,6 +366,7 @@ impl Cfg {
                 "--large" => { c.large = true; i += 1 }
                 "--faults" => { c.faults = true; i += 1 }
                 "--nopre" => { c.nopre = true; i += 1 }
+                "--external" => { c.external = Some(extra[i + 1].clone()); i += 2 }
                 "--shard" => { let t: Vec<usize> = extra[i + 1].split('/').map(|x| x.parse().unwrap()).collect(); c.shard = (t[0], t[1]); i += 2 }
                 _ => i += 1,
             }
@@ -481,7 +487,18 @@ pub fn run(rng: &mut Rng, count: usize, thorough: bool, cfg: &Cfg, out: &mut Out
                         let pa = if pq == "SE" || af.n_arguments() == 0 { vec![] } else { pick_args(rng, &af, cfg.max_args) };
                         if pq != "SE" && pa.is_empty() { None } else { Some((pq, pq != "SE" && rng.chance(1, 2), pa)) }
                     } else { None };
+                    // a small case in sixteen runs on the external verified solver printing partial models
+                    let ext = match &cfg.external {
+                        Some(p) if !all && af.n_arguments() <= 6 && max_defender_product(&af) <= 16 && rng.chance(1, 16) => Some(p.clone()),
+                        _ => None,
+                    };
+                    if let Some(p) = &ext {
+                        EXTERNAL_BACKEND.with(|b| *b.borrow_mut() = Some((p.clone(), vec!["--partial".to_string()])));
+                    }
                     emit_case_pre(out, &g, &af, sem, q, *cert, enc, &args, Fault::None, pre);
+                    if ext.is_some() {
+                        EXTERNAL_BACKEND.with(|b| *b.borrow_mut() = None);
+                    }
                     produced += 1;
                 }
             }
